@@ -310,7 +310,7 @@ PROPS["C02"] = dict(
     },
     engines=[dict(bin="dbeng", args=["--mode", "c02"], cases_quick=480, cases_thorough=10000, profiles=["release"]),
              dict(bin="journal", args=["--mode", "c03"], cases_quick=24, cases_thorough=96, profiles=["release"]),
-             dict(bin="fault", args=["--mode", "c02"], cases_quick=48, cases_thorough=600, profiles=["release"])],
+             dict(bin="fault", args=["--mode", "c02"], cases_quick=48, cases_thorough=240, profiles=["release"])],
     rule="fault --mode c02: journal workloads on a plain, single-writer-transactional or optimistic-transactional database (inserts, removes, clears, batches and "
          "write transactions with every durability level or the default, persists, journal rotations; manual and automatic journal persist) killed before a "
          "system call; the directory as the OS has it is reopened and must hold a prefix containing every acknowledged operation up to the last one whose journal "
@@ -395,7 +395,7 @@ PROPS["C09"] = dict(
         "c09_manual_buffer": "persist(Buffer) = Ok implies the user-space buffer is empty (manual journal persist)",
         "c09_inv_*": "the writer never holds buffered bytes while is_buffer_dirty is false, after every append and persist",
     },
-    engines=[dict(bin="fault", args=["--mode", "c09"], cases_quick=64, cases_thorough=2000, profiles=["release"], shards=8, timeout_quick=900)],
+    engines=[dict(bin="fault", args=["--mode", "c09"], cases_quick=64, cases_thorough=320, profiles=["release"], shards=8, timeout_quick=900)],
     rule="case = journal workload (insert, remove, clear, batches with every durability incl. none, persist with every mode; values 0 B .. 9000 B so that the 8 KiB "
          "BufWriter overflows and is bypassed; journal rotations; manual persist on/off; lz4/none) run in a child process under the shim: (1) the syscall trace (write sizes, fsync / "
          "fdatasync) must equal the Lean writer model's trace and the file bytes the model's bytes; (2) power-loss images: the child is killed before syscall n "
